@@ -17,16 +17,20 @@ OUTPUTS = ["Builtins.lean"]
 
 def registered(tera_rs, fn_name, call):
     body = fn_body(tera_rs, rf"fn {fn_name}\s*\(&mut self\)\s*\{{")
-    lines = [l.strip() for l in body.strip().splitlines() if l.strip() and not l.strip().startswith("//")]
-    out = []
-    for l in lines:
-        m = re.fullmatch(rf'self\.{call}\("(\w+)",\s*crate::(\w+)::(\w+)\);', l)
-        if not m:
-            raise ValueError(f"unrecognised registration line in {fn_name}: {l}")
-        out.append((m.group(1), m.group(2), m.group(3)))
+    rx = rf'self\s*\.\s*{call}\s*\(\s*"(\w+)"\s*,\s*crate::(\w+)::(\w+)\s*,?\s*\)\s*;'
+    out = [(m.group(1), m.group(2), m.group(3)) for m in re.finditer(rx, body)]
+    leftovers = re.sub(r"\s", "", re.sub(rx, "", body))
+    if leftovers:
+        raise ValueError(f"unrecognised code in {fn_name}: {leftovers[:80]}")
     if not out:
         raise ValueError(f"{fn_name}: nothing registered")
-    return out
+    # canonical order (see builtins_order.json): registration order is irrelevant for a map
+    import json
+    canon = json.load(open(os.path.join(os.path.dirname(os.path.abspath(__file__)), "builtins_order.json")))
+    kind = {"register_filter": "filter", "register_test": "test", "register_function": "function"}[call]
+    pos = {n: i for i, n in enumerate(canon.get(kind, []))}
+    known = sorted((r for r in out if r[0] in pos), key=lambda r: pos[r[0]])
+    return known + [r for r in out if r[0] not in pos]
 
 
 def signature(src, module, fn, has_receiver):
@@ -154,7 +158,7 @@ def generate(repo):
         names = [r[0] for r in regs]
         if len(set(names)) != len(names):
             raise ValueError(f"duplicate {kind} registration")
-        out.append(f"/-- registered {kind} names, in registration order -/")
+        out.append(f"/-- registered {kind} names, in the canonical order of builtins_order.json -/")
         out.append(f"def {kind}Names : List String := [" + ", ".join(lean_str(n) for n in names) + "]")
         out.append("")
         out.append(f"/-- (name, receiver type, [(kwarg, type, required)]) of every registered {kind} -/")
